@@ -306,6 +306,8 @@ class PauliPolynomial(PauliList):
         return (1/other) * self
 
     def __add__(self, other):
+        if not isinstance(other, PauliPolynomial):
+            other = other.as_polynomial() # Pauli or PauliList operand
         gs = torch.cat((self.gs, other.gs), dim=0)
         ps = torch.cat((self.ps, other.ps))
         cs = torch.cat((self.cs, other.cs))
